@@ -24,12 +24,16 @@ def main(path: str) -> None:
     for c in cases:
         # perturb object addresses: sets of Vars iterate in address order
         keep.append([object() for _ in range(int(c.get("salt", 0)))])
-        if "hist" in c:
-            from harness import lib_history as lh
+        try:
+            if "hist" in c:
+                from harness import lib_history as lh
 
-            out.append(lh.run_case(c["prog"], c["hist"], c.get("ref")))
+                out.append(lh.run_case(c["prog"], c["hist"], c.get("ref")))
+                continue
+            env = lf.realize(c["prog"])
+        except Exception as e:  # noqa: BLE001 - reported per case, judged by the parent
+            out.append({"worker_error": type(e).__name__ + ": " + str(e)[:200]})
             continue
-        env = lf.realize(c["prog"])
         res = []
         for req in c["reqs"]:
             got = lf.run_build(env, req)
